@@ -28,6 +28,9 @@ class Frame:
         f.globals_decl = self.globals_decl
         f.nonlocal_decl = self.nonlocal_decl
         f.fid = self.fid
+        for extra in ("local_names", "cls", "self_name", "is_spec"):
+            if hasattr(self, extra):
+                setattr(f, extra, getattr(self, extra))
         return f
 
 
